@@ -488,10 +488,47 @@ def gen_qp_band(rng, n=None):
 
 def gen_inf(rng, variant=None):
     """Infeasible problems (n <= 4)."""
-    variant = variant if variant is not None else int(rng.integers(0, 3))
+    variant = variant if variant is not None else int(rng.integers(0, 6))
     n = int(rng.integers(1, 5))
     Q = _spd(rng, n, 10.0)
     q = rng.normal(size=n)
+    if variant == 5:
+        # row unreachable inside a box whose bounds have a large magnitude; the start lies very close to (but not
+        # on) the corner that minimises the violation
+        n = int(rng.integers(1, 4))
+        b = 10.0 ** rng.uniform(2, 5, size=n) * rng.choice([-1.0, 1.0], size=n)
+        wdt = rng.uniform(1.0, 50.0, size=n)
+        lb, ub = b, b + wdt
+        a = np.ones(n)
+        spec = Spec(np.eye(n), np.zeros(n), a[None, :], [0.0], lb, ub, [float(ub.sum() + rng.uniform(0.5, 3.0))], [INF],
+                    meta={"family": "INF", "variant": "large-bounds-start-near-corner"})
+        x0 = ub - 1e-6 * np.abs(ub) * rng.uniform(0.1, 0.9, size=n)
+        far = rng.random(size=n) < 0.3
+        x0[far] = (lb + rng.uniform(0.1, 0.9, size=n) * wdt)[far]
+        spec.x0 = np.clip(x0, lb, ub)
+        return spec
+    if variant == 3:
+        # sum_j b_j x_j^2 + c = 0 on a box with lower bound 0: the violation is minimised in the corner x = 0,
+        # where the Jacobian vanishes exactly (reached by projection onto the bounds)
+        Bm = np.diag(rng.uniform(0.5, 3.0, size=n))
+        spec = Spec(Q * 0.0 + np.eye(n), np.abs(q) + 0.1, np.zeros((1, n)), [float(rng.uniform(0.5, 2.0))],
+                    np.zeros(n), np.full(n, float(rng.uniform(2.0, 6.0))), [0.0], [0.0], B=[Bm],
+                    meta={"family": "INF", "variant": "zero-jacobian-corner"})
+        spec.x0 = rng.uniform(0.2, 1.5, size=n)
+        return spec
+    if variant == 4:
+        # one variable, (x - t)^2 + 1 = 0 with the minimiser t of the violation slightly *inside* a box whose
+        # bounds have a large magnitude
+        b = float(10.0 ** rng.uniform(2, 5)) * float(rng.choice([-1.0, 1.0]))
+        delta = float(10.0 ** rng.uniform(-3, -1)) * abs(b) * 1e-3
+        lo, hi = (b, b + 3.0 * abs(b)) if b > 0 else (b - 3.0 * abs(b), b)
+        t = lo + delta if b > 0 else hi - delta
+        # c(x) = (x - t)^2 + 1 = x^2 - 2 t x + t^2 + 1
+        spec = Spec(np.zeros((1, 1)), [0.0], [[-2.0 * t]], [t * t + 1.0], [lo], [hi], [0.0], [0.0],
+                    B=[np.array([[2.0]])], meta={"family": "INF", "variant": "minimiser-near-large-bound"})
+        spec.x0 = np.array([t + (0.5 if b > 0 else -0.5) * abs(b)])
+        spec.x0 = np.clip(spec.x0, lo, hi)
+        return spec
     if variant == 0:
         # 1/2 x'Bx + 1 = 0 with B positive definite: no real solution
         Bm = _spd(rng, n, 5.0)
